@@ -153,6 +153,7 @@ KINDS = {
     "C12": ["WriteSets", "NothingAboveStopLevel", "Digest.mp", "Digest.lo", "Digest.rhs", "Crash"],
     "C13": ["RebuildPreserves", "Groups", "GroupHeader", "LeafGroupsAligned", "StoredOnce", "InRightLeaf", "DataBitExact", "ZeroInit",
             "Digest.mp", "Digest.lo", "Digest.rhs", "Crash"],
+    "C14": ["ViewEquiv", "Crash", "Sanitizer"],
     "C16": ["Find", "Crash"],
     "C17": ["Export", "Crash"],
     "C18": ["Counters", "Crash"],
@@ -709,6 +710,63 @@ def check_c10(run):
                             "getRepetitionsIntervals / getNbRepetitionsPerDim report that interval")
     run.coverage["exhaustive"] = True
     run.assumptions += FMM_ASSUME + ["per-dimension (anisotropic) box widths are exercised by the replay variants; numerical kernels are out of scope (C04/C05)"]
+
+
+MEM_INVS = ["Disjoint", "InBounds", "AccessorInBlock", "RowsDisjoint", "Aligned", "TrailerRoundTrip", "NoDoubleFree", "Emit"]
+
+
+@check("C14", "model_checking")
+def check_c14(run):
+    q = run.tier == "quick"
+    consts = dict(Align=64, Word=8, MaxItems=5 if q else 9, ExtraCounts={8, 9, 64, 65} if q else {8, 9, 16, 17, 63, 64, 65, 128, 129, 1000}, MaxOps=3, Shard=0, NbShards=1, EmitJson=True)
+    res = tlc_sharded("MemBlock", consts, MEM_INVS, [], 8, 1, 1500, "C14-memblock")
+    run.add_tlc("C14-memblock", res, note="MemBlock.tla: 8 layouts (1-4 sub-blocks of scalar / vector / multi-row kinds, element sizes 1..4096), counts 0..%d + %s, histories reset / reuse-reset / move / byte-copy view" % (consts["MaxItems"], sorted(consts["ExtraCounts"])))
+    if res.violated:
+        run.machinery_errors.append("TLC: %s of spec/MemBlock.tla violated (log %s)" % (res.violated, res.logpath))
+    OPC = {"reset": 0, "move": 1, "view": 2}
+    recs = []
+    for r in res.lines:
+        if r.get("k") != "mem":
+            continue
+        v = [r["layout"], len(r["ops"])]
+        for o in r["ops"]:
+            v += [OPC[o["op"]], len(o["counts"])] + list(o["counts"]) + [o["alloc"], len(o["offs"])] + list(o["offs"])
+        recs.append(" ".join(map(str, v)))
+    binp = need(build("replay_mem_asan", "replay_mem.cpp", [], variant="asan"), run)
+    nchunks = 8
+    with ThreadPoolExecutor(max_workers=nchunks) as ex:
+        outs = list(ex.map(lambda ch: run_bin(binp, [], stdin_text="\n".join(ch) + "\n", timeout=900), [recs[i::nchunks] for i in range(nchunks)]))
+    checks = 0
+    for rc, out, err in outs:
+        m, summary = parse_harness_output(out)
+        if summary is None:
+            if rc in (98, 99) or "Sanitizer" in err or "runtime error" in err:
+                first = [l for l in err.splitlines() if "ERROR: AddressSanitizer" in l or "runtime error" in l]
+                run.violation("Sanitizer:memblock", (first or ["sanitizer report"])[0][:300], run.write_replay("Sanitizer-memblock", {"kind": "mem", "stderr": err[-2000:]}))
+                continue
+            raise vlib.HarnessError("replay_mem failed (exit %s): %s" % (rc, (err or out)[-400:]))
+        checks += summary.get("checks", 0)
+        seen = set()
+        for kind, key, text in m:
+            if (kind, key) in seen:
+                continue
+            seen.add((kind, key))
+            run.violation(kind + ":" + key, text, run.write_replay(kind + "-" + key, {"kind": "mem", "key": key, "text": text}))
+    run.add_harness("C14-memblock", {"scenarios": len(recs), "checks": checks}, 0)
+    run.coverage["traces_validated_against_impl"] += len(recs)
+    run.coverage["evaluations"] += len(recs)
+    run.coverage["distinct_nontrivial"] += sum(1 for x in recs if " 0 " in x)
+    if recs:
+        run.sample({"memblock_history": [r for r in res.lines if r.get("k") == "mem"][len(recs) // 2]})
+    # cell and particle groups of real trees: byte copies viewed through the raw-memory constructors (after execution, so expansions are non-zero)
+    run_fmm_configs(run, "C14", std_configs(run.tier, small=True)[:3] + [("1d-h5-multi", fmm_constants(1, 5, POOL_1D_H5[:5], maxper=2, bss=(1, 2, 20)))])
+    run.coverage["rule"] = ("one case = one history (reset with a count vector; optionally a second reset that reuses / regrows the buffer, move construction+assignment, byte copy + raw-memory view) "
+                            "of one of 8 sub-block layouts explored by TLC on MemBlock.tla (Disjoint, InBounds, AccessorInBlock, RowsDisjoint, Aligned, TrailerRoundTrip, NoDoubleFree) and replayed on "
+                            "TbfMemoryBlock under AddressSanitizer: allocated size, offsets, trailer words, zero initialisation, non-aliasing accessors, move and view equivalence; plus byte-copy views of "
+                            "every cell and particle group of the replayed FMM scenarios; non-trivial = a history containing a reuse, move or view")
+    run.coverage["exhaustive"] = True
+    run.assumptions += ["element sizes 1..4096 bytes and item counts up to the listed bounds (not 10^4); at most one sub-block takes an arbitrary count per reset",
+                        "TbfMemoryMultiVVector is not instantiated by the library's containers and is not covered"]
 
 
 @check("C15", "exploration")
